@@ -138,6 +138,9 @@ def _workload(case, rng):
             tdtype = gen.TRACE_DTYPES_FLOAT[int(rng.integers(2))]
         off = float(rng.choice([0.0, 0.0, 50.0, 1000.0]))
         traces = gen.float_traces(rng, n, T, tdtype, offset=off, sigma=float(rng.choice([1.0, 10.0])))
+    if name == 'mia' and regime == 'E' and rng.random() < 0.4:
+        traces = np.array(traces, copy=True)
+        traces[-1, :] = 64           # a saturated trace (every sample on the last bin edge, which is inclusive), often isolated in its own batch
     traces = gen.layout(rng, traces)
     if data is not None and name not in ('tstatic', 'tdpa'):
         data = gen.layout_nd(rng, data)          # intermediate values in C / Fortran / transposed-buffer / strided layouts
@@ -168,7 +171,14 @@ def _run_history(t, spec, traces, data, sizes, compute_gaps, kernels=None):
         if g in compute_gaps:
             inter[g] = subjects.results(obj, spec)
             t.count('inserted_computes')
-    final = subjects.results(obj, spec)
+    first = subjects.results(obj, spec)
+    final = [(la, np.array(a, copy=True)) for la, a in first]
+    for la, a in first:
+        # what the caller does with a returned array (here: overwriting it) is no business of the next compute()
+        try:
+            a[...] = -777
+        except (ValueError, TypeError):
+            pass
     again = subjects.results(obj, spec)
     t.count('compute_idempotence')
     for (la, a), (lb, b) in zip(final, again):
